@@ -238,6 +238,10 @@ package wire
 //@   assert call sendRequest: fresh1 && req.RequestID == drawn
 //@ func (*ClientConn).SendUpstreamCloseRequest
 //@   props C06
+// C07: closing an upstream touches no downstream routing table, and of the upstream tables only the
+// entries of the closed stream's own alias
+//@   ensures[C07] forall(a, uint32, has(c.downstreams.dps, a) == old(has(c.downstreams.dps, a)) && has(c.downstreams.dpsUnreliable, a) == old(has(c.downstreams.dpsUnreliable, a)) && has(c.downstreams.ackCompletes, a) == old(has(c.downstreams.ackCompletes, a)) && has(c.downstreams.metadata, a) == old(has(c.downstreams.metadata, a)))
+//@   ensures[C07] forall(a, uint32, imp(!old(has(c.upstreams.aliases, req.StreamID)) || a != old(c.upstreams.aliases[req.StreamID]), has(c.upstreams.acks, a) == old(has(c.upstreams.acks, a)) && c.upstreams.acks[a] == old(c.upstreams.acks[a]) && has(c.upstreams.messageWriters, a) == old(has(c.upstreams.messageWriters, a))))
 //@   nopanic[C12] typeassert
 //@   ghostvar drawn uint32 = 0
 //@   ghostvar fresh1 bool = false
@@ -262,6 +266,10 @@ package wire
 //@   assert call sendRequest: fresh1 && req.RequestID == drawn
 //@ func (*ClientConn).SendDownstreamCloseRequest
 //@   props C06
+// C07: closing a downstream touches no upstream routing table, and of the downstream tables only the
+// entries of the closed stream's own alias
+//@   ensures[C07] forall(a, uint32, has(c.upstreams.acks, a) == old(has(c.upstreams.acks, a)) && c.upstreams.acks[a] == old(c.upstreams.acks[a]) && has(c.upstreams.messageWriters, a) == old(has(c.upstreams.messageWriters, a)))
+//@   ensures[C07] forall(a, uint32, imp(!old(has(c.downstreams.aliases, req.StreamID)) || a != old(c.downstreams.aliases[req.StreamID]), has(c.downstreams.dps, a) == old(has(c.downstreams.dps, a)) && has(c.downstreams.dpsUnreliable, a) == old(has(c.downstreams.dpsUnreliable, a)) && has(c.downstreams.ackCompletes, a) == old(has(c.downstreams.ackCompletes, a)) && has(c.downstreams.metadata, a) == old(has(c.downstreams.metadata, a))))
 //@   nopanic[C12] typeassert
 //@   ghostvar drawn uint32 = 0
 //@   ghostvar fresh1 bool = false
